@@ -82,6 +82,13 @@ CLAIMED = {
             "with output spacing d2; each also after a history of other calls; N in {2,4} quick / up to 8 thorough; "
             "NOT claimed: angular-spectrum vs Fresnel agreement, Gaussian beam, Airy pattern (not algebraic identities)",
             "Angle relations between chirp phases are each proved by the solver before use; ft2/ift2 contract from C09."),
+    "C12": ("4 C12", "zernIndex with a symbolic integer j (1..300 quick / 1..2000 thorough, every path of the sqrt/int arithmetic): triangular bound, "
+            "Noll row position, parity/sign rule, |m|<=n, n-|m| even, injectivity, totality, fresh result lists; phaseFromZernikes with symbolic "
+            "coefficients = that linear combination; zernikeArray(list) = slices of zernikeArray(count); modes vanish outside the inscribed pupil; "
+            "p2v and rms normalisations on concrete grids; makegammas: d/dx and d/dy of every Noll-normalised mode equal sum_j gamma[i,j] Z_j as a "
+            "polynomial identity in symbolic (x, y) over algebraic square roots (radial orders <= 3 quick / 5 thorough). NOT claimed: orthonormality "
+            "as the grid is refined (limit), float rounding of sqrt for j > 2^50",
+            "mode grids are concrete (trigonometric values evaluated in floating point as the code does); gamma entries are exact algebraic numbers (float32 storage outside)."),
     "C14": ("5 C14", "circle(r,n,c,origin) is exactly the indicator of pixel centres within r of c on every feasible path (symbolic r>=0 and centre, "
             "both origins, n<=4 quick / <=6 thorough: boundary-touching, half-pixel and off-array centres included) - nesting, symmetry and "
             "integer-shift translation are consequences; findActiveSubaps returns exactly the row-major cells with mean>=threshold with "
